@@ -69,6 +69,13 @@ using namespace cds_utils;
 #include "utils/LogSequence.h"
 
 #define MEMALLOC 32768
+#ifdef LIBCSD_VERIF
+// verification hook: lets a harness shrink the initial reservation at run time
+#include <cstddef>
+extern "C" size_t libcsd_verif_memalloc;
+#undef MEMALLOC
+#define MEMALLOC libcsd_verif_memalloc
+#endif
 
 class StringDictionaryRPHTFC : public StringDictionary {
 public:
